@@ -17,6 +17,7 @@ import (
 	"runtime/debug"
 	"sort"
 	"strings"
+	"time"
 
 	"verif.local/simrt"
 )
@@ -115,6 +116,21 @@ func main() {
 		runtime.GOMAXPROCS(1)
 		debug.SetGCPercent(-1)
 	}
+	go func() {
+		// A process that makes no scheduler step for three minutes hangs (a
+		// library call outside any simulated task that blocks, a harness bug):
+		// infrastructure failure, never a violation.
+		last, idle := int64(-1), 0
+		for {
+			time.Sleep(10 * time.Second)
+			if h := simrt.Heartbeat.Load(); h != last {
+				last, idle = h, 0
+			} else if idle++; idle >= 18 {
+				fmt.Fprintln(os.Stderr, "INFRA: worker made no scheduler step for 180 s")
+				os.Exit(2)
+			}
+		}
+	}()
 	out := bufio.NewWriterSize(os.Stdout, 1<<16)
 	defer out.Flush()
 	emit := func(v any) {
